@@ -45,19 +45,25 @@ def work(args):
     C = cls_of(mod, cls)
     out = []
     if kind == "gen":
-        for m in range(lo, hi):
-            out.append(to_int(C.generate(ba(m, k))))
+        # the caller keeps every encoder output and reads them only after the last call (results must not share storage)
+        held = [C.generate(ba(m, k)) for m in range(lo, hi)]
+        out = [to_int(x) for x in held]
     elif kind == "check":
         for w in range(lo, hi):
             if C.check(ba(w, n)):
                 out.append(w)
     elif kind == "fix1":
         gen = extra
+        prev = None
         for m in range(lo, hi):
             for p in range(n):
                 w = gen[m] ^ (1 << p)
                 st, o = C.check_and_correct(ba(w, n))
-                out += [w, 1 if st else 0, to_int(o)]
+                if prev is not None:
+                    out += [prev[0], prev[1], to_int(prev[2])]      # the previous result is read after the next call
+                prev = (w, 1 if st else 0, o)
+        if prev is not None:
+            out += [prev[0], prev[1], to_int(prev[2])]
     elif kind == "fix2":
         gen = extra
         for m in range(lo, hi):
